@@ -421,6 +421,12 @@ def row_loops(fi, streams=None):
     return out
 
 
+def norm_guard(t, pol):
+    while isinstance(t, ast.UnaryOp) and isinstance(t.op, ast.Not):
+        t, pol = t.operand, not pol
+    return t, pol
+
+
 class RowSig:
     def __init__(self):
         self.guards = []    # (test node, polarity)
@@ -462,7 +468,7 @@ def rowloop_signature(fi, loop, var, cap=4096):
         s = RowSig()
         s.term = p.term
         s.path = p
-        s.guards = p.guards()
+        s.guards = [norm_guard(t, pol) for t, pol in p.guards()]
         for n in path_nodes(p, into_loops=True):
             if isinstance(n, ast.Yield):
                 v = n.value
